@@ -7,14 +7,6 @@ use std::io::Cursor;
 use vcheck::engine::guard;
 use vcheck::gens::mpq::{ArchiveSpec, Attrs, ContentClass, Enc, FileSpec, LenSpec, M_BZIP2, M_NONE, M_ZLIB};
 
-pub const BLP_FIXTURES: [&str; 5] = [
-    "test_simple_without_alpha.blp",
-    "test_rect_with_alpha.blp",
-    "test_rect_without_alpha.blp",
-    "test_simple_jpg.blp",
-    "test_simple_with_alpha.blp",
-];
-
 pub const DBC_SCHEMA_YAML: &str = "name: Test\nkey_field: ID\nfields:\n  - name: ID\n    type_name: UInt32\n  - name: Name\n    type_name: String\n  - name: Value\n    type_name: UInt32\n";
 
 /// a schema that cannot fit the table (field count mismatch): `dbc validate` must refuse it
@@ -65,6 +57,10 @@ fn dbc_bytes(rows: u32) -> Vec<u8> {
 }
 
 fn m2_bytes(v: wow_m2::M2Version) -> Vec<u8> {
+    m2_bytes_n(v, 3)
+}
+
+fn m2_bytes_n(v: wow_m2::M2Version, n_vertices: usize) -> Vec<u8> {
     use wow_m2::M2Model;
     use wow_m2::chunks::vertex::M2Vertex;
     use wow_m2::common::{C2Vector, C3Vector};
@@ -73,7 +69,7 @@ fn m2_bytes(v: wow_m2::M2Version) -> Vec<u8> {
     let mut m = M2Model::default();
     m.header = M2Header::new(v);
     m.name = Some("Test".into());
-    for i in 0..3 {
+    for i in 0..n_vertices {
         m.vertices.push(M2Vertex {
             position: C3Vector { x: i as f32, y: 0.0, z: 0.0 },
             bone_weights: [255, 0, 0, 0],
@@ -348,6 +344,7 @@ pub fn mpq_spec(id: &str) -> Option<ArchiveSpec> {
             f("Data\\blob.bin", ContentClass::Random, 3, 17, 2, M_NONE, Enc::None),
             f("Data\\Sub\\table.dbc", ContentClass::LowEntropy, 5, -3, 3, M_BZIP2, if version == 2 { Enc::Key } else { Enc::None }),
             f("empty.dat", ContentClass::Constant, 0, 0, 4, M_ZLIB, Enc::None),
+            f(&format!("Interface\\{}\\{}.blp", "GlueXML_".repeat(5), "LongFileName_".repeat(5)), ContentClass::Period, 1, 9, 5, M_ZLIB, Enc::None),
         ],
     })
 }
@@ -394,6 +391,7 @@ fn build_uncached(id: &str) -> Result<Vec<u8>, String> {
             "rgb16" => png_bytes(16, 16, false),
             _ => png_bytes(4, 4, false),
         }),
+        "m2" if rest == "no-vertices" => Ok(m2_bytes_n(wow_m2::M2Version::WotLK, 0)),
         "m2" => Ok(m2_bytes(match rest {
             "vanilla" => wow_m2::M2Version::Vanilla,
             "tbc" => wow_m2::M2Version::TBC,
